@@ -212,7 +212,10 @@ func (w *wctx) watch() {
 		if v := smp[0].Value.Uint64(); v > runawayLimit {
 			buf := make([]byte, 1<<20)
 			buf = buf[:runtime.Stack(buf, true)]
-			fmt.Fprintf(os.Stderr, "C11-RUNAWAY case=%d entry=%d heap=%d after=%dms\n%s\n", w.curCase.Load(), w.curEntry.Load(), v, (time.Now().UnixNano()-st)/1e6, buf)
+			// where the entry happens to be executing varies from run to run; the
+			// function holding the most live heap does not
+			site, frames := heapSite(true)
+			fmt.Fprintf(os.Stderr, "C11-RUNAWAY case=%d entry=%d heap=%d after=%dms site=%s frames=%s\n%s\n", w.curCase.Load(), w.curEntry.Load(), v, (time.Now().UnixNano()-st)/1e6, site, strings.Join(frames, "<"), buf)
 			os.Exit(97)
 		}
 	}
@@ -364,8 +367,16 @@ func (w *wctx) runCase(caseID int, s *Seed, mask uint32, m mutate.Mutation) {
 // biggestAllocSite returns the top relic function of the heap-profile record
 // with the most allocated bytes (the process is fresh and has run one entry).
 func biggestAllocSite() (string, []string) {
+	// the heap profile may lag two collection cycles behind
 	runtime.GC()
 	runtime.GC()
+	runtime.GC()
+	return heapSite(false)
+}
+
+// heapSite: inUse selects the record holding the most live bytes (runaway
+// growth in a long-lived worker), otherwise the most allocated bytes.
+func heapSite(inUse bool) (string, []string) {
 	n, _ := runtime.MemProfile(nil, true)
 	recs := make([]runtime.MemProfileRecord, n+50)
 	n, ok := runtime.MemProfile(recs, true)
@@ -373,12 +384,17 @@ func biggestAllocSite() (string, []string) {
 		return "", nil
 	}
 	var best *runtime.MemProfileRecord
+	var bestV int64
 	for i := range recs[:n] {
-		if best == nil || recs[i].AllocBytes > best.AllocBytes {
-			best = &recs[i]
+		v := recs[i].AllocBytes
+		if inUse {
+			v = recs[i].InUseBytes()
+		}
+		if best == nil || v > bestV {
+			best, bestV = &recs[i], v
 		}
 	}
-	if best == nil || best.AllocBytes < 32<<20 {
+	if best == nil || bestV < 32<<20 {
 		return "", nil
 	}
 	var names []string
@@ -392,8 +408,7 @@ func biggestAllocSite() (string, []string) {
 			break
 		}
 	}
-	top, frames := parseStack(strings.Join(names, "\n"))
-	return top, frames
+	return parseStack(strings.Join(names, "\n"))
 }
 
 // memNow returns (cumulative bytes allocated, heap bytes obtained from the
